@@ -31,6 +31,7 @@
 size_t verif_c17_gk;                 /* ghost signature index (aggverify: into the aggregate; inc_aggregate: into the NEW signatures) */
 uint64_t c17_gk_end;                 /* stream length of the running hash after signature gk: 64 + 96*(index in the whole sequence + 1) */
 uint64_t verif_c17_wpos; unsigned char verif_c17_wexp;   /* watched position of the running hash stream and the expected byte there */
+int c17_r_ok, c17_pk_canon;          /* harness-computed: r_gk < p; stored x and y of pk_gk < p (named by the loop invariants, which cannot call functions) */
 #ifndef VERIF_NATIVE
 wide c17_exp_r, c17_exp_m, c17_exp_px, c17_exp_py, c17_exp_s;   /* r_gk, m_gk, stored x / y of pk_gk, s_gk as integers */
 #endif
@@ -48,13 +49,26 @@ int c17_mul_hit, c17_mul_one_hit;                    /* scalar_mul asked for s_g
 int c17_cmp_hit, c17_cmp_inf;                        /* a group addition with s*G (up to sign) as one operand happened; infinity flag of its result */
 
 #ifndef VERIF_NATIVE
-static inline wide c17_le256(const unsigned char *b) { wide v = 0; int i; for (i = 31; i >= 0; i--) v = (v << 8) | W(b[i]); return v; }
-static inline wide c17_redn(wide v) { wide n = N_(); return v >= n ? v - n : v; }
-static inline wide c17_modp(wide v) { wide p = P_(); int i; for (i = 0; i < 9; i++) if (v >= p) v -= p; return v; }   /* magnitude <= 4: v < 9p */
+/* helper views used inside contract clauses: pure expressions (no locals, no loops), so that DFCC's frame checking of the
+ * enclosing loop has nothing to check in them */
+#define C17_BY(b, i, sh) (W((b)[i]) << (sh))
+static inline wide c17_be256(const unsigned char *b) { return
+    C17_BY(b,0,248)|C17_BY(b,1,240)|C17_BY(b,2,232)|C17_BY(b,3,224)|C17_BY(b,4,216)|C17_BY(b,5,208)|C17_BY(b,6,200)|C17_BY(b,7,192)|
+    C17_BY(b,8,184)|C17_BY(b,9,176)|C17_BY(b,10,168)|C17_BY(b,11,160)|C17_BY(b,12,152)|C17_BY(b,13,144)|C17_BY(b,14,136)|C17_BY(b,15,128)|
+    C17_BY(b,16,120)|C17_BY(b,17,112)|C17_BY(b,18,104)|C17_BY(b,19,96)|C17_BY(b,20,88)|C17_BY(b,21,80)|C17_BY(b,22,72)|C17_BY(b,23,64)|
+    C17_BY(b,24,56)|C17_BY(b,25,48)|C17_BY(b,26,40)|C17_BY(b,27,32)|C17_BY(b,28,24)|C17_BY(b,29,16)|C17_BY(b,30,8)|C17_BY(b,31,0); }
+static inline wide c17_le256(const unsigned char *b) { return
+    C17_BY(b,31,248)|C17_BY(b,30,240)|C17_BY(b,29,232)|C17_BY(b,28,224)|C17_BY(b,27,216)|C17_BY(b,26,208)|C17_BY(b,25,200)|C17_BY(b,24,192)|
+    C17_BY(b,23,184)|C17_BY(b,22,176)|C17_BY(b,21,168)|C17_BY(b,20,160)|C17_BY(b,19,152)|C17_BY(b,18,144)|C17_BY(b,17,136)|C17_BY(b,16,128)|
+    C17_BY(b,15,120)|C17_BY(b,14,112)|C17_BY(b,13,104)|C17_BY(b,12,96)|C17_BY(b,11,88)|C17_BY(b,10,80)|C17_BY(b,9,72)|C17_BY(b,8,64)|
+    C17_BY(b,7,56)|C17_BY(b,6,48)|C17_BY(b,5,40)|C17_BY(b,4,32)|C17_BY(b,3,24)|C17_BY(b,2,16)|C17_BY(b,1,8)|C17_BY(b,0,0); }
+static inline wide c17_redn(wide v) { return v >= N_() ? v - N_() : v; }
+static inline wide c17_m1(wide v) { return v >= P_() ? v - P_() : v; }
+static inline wide c17_modp(wide v) { return c17_m1(c17_m1(c17_m1(c17_m1(c17_m1(c17_m1(c17_m1(c17_m1(c17_m1(v))))))))); }   /* magnitude <= 4: v < 9p */
 #define C17_UPD(flag, cond) (flag == ((__CPROVER_old(flag) != 0 || (cond)) ? 1 : 0))
 #define C17_COVERS (__CPROVER_old(hash->bytes) <= verif_c17_wpos && verif_c17_wpos < __CPROVER_old(hash->bytes) + len)
 #define C17_SVAL_OLD(a) (W(__CPROVER_old((a)->d[0])) | (W(__CPROVER_old((a)->d[1])) << 64) | (W(__CPROVER_old((a)->d[2])) << 128) | (W(__CPROVER_old((a)->d[3])) << 192))
-#define C17_Z (c17_redn(be256(c17_dig)))
+#define C17_Z (c17_redn(c17_be256(c17_dig)))
 #define C17_B4(g, a, i) g[i] == a[i] && g[i+1] == a[i+1] && g[i+2] == a[i+2] && g[i+3] == a[i+3]
 #define C17_K4(g, i) g[i] == __CPROVER_old(g[i]) && g[i+1] == __CPROVER_old(g[i+1]) && g[i+2] == __CPROVER_old(g[i+2]) && g[i+3] == __CPROVER_old(g[i+3])
 #define C17_B32(g, a) (C17_B4(g, a, 0) && C17_B4(g, a, 4) && C17_B4(g, a, 8) && C17_B4(g, a, 12) && C17_B4(g, a, 16) && C17_B4(g, a, 20) && C17_B4(g, a, 24) && C17_B4(g, a, 28))
@@ -95,7 +109,7 @@ __CPROVER_ensures(C17_UPD(c17_xo_hit, C17_XO_IS_GK))
 __CPROVER_ensures(C17_UPD(c17_xo_rej, C17_XO_IS_GK && __CPROVER_return_value == 0))
 __CPROVER_ensures(C17_UPD(c17_xo_anyrej, __CPROVER_return_value == 0))
 ;
-#define C17_CH_IS_GK (msglen == 32 && be256(r32) == c17_exp_r && be256(msg) == c17_exp_m && be256(pubkey32) == c17_exp_px)
+#define C17_CH_IS_GK (msglen == 32 && c17_be256(r32) == c17_exp_r && c17_be256(msg) == c17_exp_m && c17_be256(pubkey32) == c17_exp_px)
 static void secp256k1_schnorrsig_challenge(const secp256k1_hash_ctx *hash_ctx, secp256k1_scalar* e, const unsigned char *r32, const unsigned char *msg, size_t msglen, const unsigned char *pubkey32)
 __CPROVER_requires(hash_ctx != NULL && __CPROVER_w_ok(e, sizeof(*e)) && __CPROVER_r_ok(r32, 32) && __CPROVER_r_ok(pubkey32, 32) && (msglen == 0 || __CPROVER_r_ok(msg, msglen)))
 __CPROVER_assigns(*e, c17_ch_hit, c17_e)
